@@ -772,29 +772,51 @@ func obFile(dir string, ob *Obligation) string {
 }
 
 func solveOb(ob *Obligation, o SolveOpts) {
+	if os.Getenv("VERIF_SLOW") != "" {
+		t0 := time.Now()
+		defer func() {
+			if d := time.Since(t0).Seconds(); d > 5 {
+				fmt.Printf("wall: %.1fs %s %s [%s]\n", d, ob.Name, ob.Status, ob.Solver)
+			}
+		}()
+	}
 	if ob.Cover && len(ob.Alts) > 0 {
 		// vacuity: it is enough that ONE of the alternatives (e.g. one return) is reachable; try them
 		// one at a time, simplest first, instead of their disjunction
 		full := ob.Goal
-		for _, alt := range ob.Alts {
-			ob.Goal = alt
-			r := solveText(ob.script.render(ob, nil, nil), obFile(o.Dir, ob), o)
-			ob.Status, ob.Solver, ob.Seconds, ob.Raw = r.status, r.solver, r.secs, r.out
-			if r.status == "sat" {
-				break
+		// A solver cannot answer `sat` in the presence of the quantified background axioms
+		// (injectivity of interior references, owner function): when the script has any, the
+		// alternatives are first tried without them (a weaker check, noted in the solver name) and
+		// only then with them.  Each attempt is short: a reachable return is found at once or not at all.
+		quick := o
+		if quick.TimeoutMs > 3000 {
+			quick.TimeoutMs = 3000
+		}
+		quick.Single = true
+		hasAx := false
+		for _, c := range ob.script.cmds {
+			if c.kind == cDecl && strings.HasPrefix(c.name, "axiom:") && strings.Contains(c.text, "(forall ") {
+				hasAx = true
 			}
 		}
-		if ob.Status != "sat" && !ob.NoAx {
-			// last resort: the same alternatives without the quantified background axioms (injectivity
-			// of interior references etc.), which keep a solver from answering `sat`
-			ob.NoAx = true
+		try := func(noAx bool, opts SolveOpts) bool {
+			ob.NoAx = noAx
 			for _, alt := range ob.Alts {
 				ob.Goal = alt
-				r := solveText(ob.script.render(ob, nil, nil), obFile(o.Dir, ob), o)
+				r := solveText(ob.script.render(ob, nil, nil), obFile(o.Dir, ob), opts)
+				ob.Status, ob.Solver, ob.Seconds, ob.Raw = r.status, r.solver, r.secs, r.out
 				if r.status == "sat" {
-					ob.Status, ob.Solver, ob.Seconds, ob.Raw = r.status, r.solver+" (without quantified axioms)", r.secs, r.out
-					break
+					if noAx && hasAx {
+						ob.Solver += " (without quantified axioms)"
+					}
+					return true
 				}
+			}
+			return false
+		}
+		if !(hasAx && try(true, quick)) && !try(false, quick) {
+			if !(hasAx && try(true, o)) {
+				try(false, o)
 			}
 		}
 		ob.Goal = full
